@@ -84,6 +84,23 @@ def ternary_alphabet():
     return A
 
 
+def undersaturated_df_alphabet():
+    """Ni-Cr-Al: driving force at compositions below the solvus (a defined, negative answer; with the tangent method the tangent point
+    collapses onto the matrix there and the code falls back to sampling)"""
+    return [("df", ((0.01, 0.01), 1073.15)), ("df", ((0.02, 0.015), 1073.15)), ("df", ((0.08, 0.10), 1473.15))]
+
+
+def df_order_histories(alphabet, under):
+    """an undersaturated driving-force query, caches kept, then supersaturated ones (and back)"""
+    sup = [a for a in alphabet if a[0] == "df"]
+    hist = []
+    for u in under:
+        for s_ in sup:
+            hist.append([("q",) + u + (False,), ("q",) + s_ + (False,), ("q",) + u + (False,), ("q",) + s_ + (True,)])
+        hist.append([("q",) + u + (False,)] + [("q",) + s_ + (False,) for s_ in sup])
+    return hist
+
+
 _SD = {}
 
 
